@@ -49,6 +49,9 @@ pub struct Cfg {
     pub start_ns: u64,
     /// clock steps in nanoseconds offered as `AdvanceBy` (empty: one `Advance` of +1 block, +5 s)
     pub advance_ns: Vec<u64>,
+    /// clock jumps of N blocks and N seconds offered as `Jump` (then no other clock step is offered);
+    /// enabled while the height stays within `hmax`
+    pub jumps: Vec<u64>,
     /// offer the refused-by-design calls (wrong denom, foreign token, direct Receive, …)
     pub adversarial: bool,
 }
@@ -105,6 +108,8 @@ pub enum Act {
     Advance,
     /// next block, `ns` nanoseconds later (sub-second block times)
     AdvanceBy { ns: u64 },
+    /// `n` blocks and `n` seconds later
+    Jump { n: u64 },
 }
 
 /// everything the oracles read, through queries and real balances
@@ -307,7 +312,7 @@ fn label(act: &Act) -> &'static str {
         Act::Unbond { .. } => "Unbond",
         Act::Claim { .. } => "Claim",
         Act::Donate { .. } => "Donate",
-        Act::Advance | Act::AdvanceBy { .. } => "AdvanceBlock",
+        Act::Advance | Act::AdvanceBy { .. } | Act::Jump { .. } => "AdvanceBlock",
     }
 }
 
@@ -455,7 +460,12 @@ impl Model for StakeModel {
         if cfg.funds[DON] > 0 && s.obs.wallets[DON] > 0 {
             out.push(Act::Donate { amt: Amt(1) });
         }
-        if s.w.height < cfg.hmax {
+        for n in &cfg.jumps {
+            if s.w.height + n <= cfg.hmax {
+                out.push(Act::Jump { n: *n });
+            }
+        }
+        if cfg.jumps.is_empty() && s.w.height < cfg.hmax {
             if cfg.advance_ns.is_empty() {
                 out.push(Act::Advance);
             }
@@ -474,9 +484,10 @@ impl Model for StakeModel {
         let pre = &*s.obs;
         let lbl = label(act).to_string();
         let st = a(STAKE);
-        if let Act::Advance | Act::AdvanceBy { .. } = act {
+        if let Act::Advance | Act::AdvanceBy { .. } | Act::Jump { .. } = act {
             match act {
                 Act::AdvanceBy { ns } => w.advance_nanos(1, *ns),
+                Act::Jump { n } => w.advance(*n, *n),
                 _ => w.advance(1, DT),
             }
             let obs = self.observe(&w).unwrap_or_default();
@@ -531,12 +542,27 @@ impl Model for StakeModel {
                     mc::TxOut { res: res.map(|_| None), top: None, dispatched: vec![] }
                 }
             }
-            Act::Advance | Act::AdvanceBy { .. } => unreachable!(),
+            Act::Advance | Act::AdvanceBy { .. } | Act::Jump { .. } => unreachable!(),
         };
         let ok = out.ok();
         if !ok {
             // the kernel commits nothing of a failed transaction: the world, hence every balance and
-            // query, is the pre-state's (a refusal is never a violation)
+            // query, is the pre-state's. A refusal is not a violation, with one exception the text fixes:
+            // "Claim pays the user's matured claims" - a Claim by a user whose ledger holds matured, unpaid
+            // claims of a positive amount must go through (the contract holds at least its books, so it can pay)
+            if let Act::Claim { u } = act {
+                let p: u128 = s.r.claims[*u as usize].iter().filter(|c| self.matured(&c.1, &s.w)).map(|c| c.0).sum();
+                if p > 0 {
+                    v.push(Violation::new(
+                        "C10.matured_claims_are_paid_on_claim",
+                        format!(
+                            "Claim by {} at height {} time {} ns was refused ({}) although claims {:?} worth {p} have matured and were never paid",
+                            ACTORS[*u as usize], s.w.height, now_ns(&s.w), out.err(), s.r.claims[*u as usize]
+                        ),
+                    ));
+                    return Step { next: State { w, r, obs: s.obs.clone(), dead: true }, label: lbl, ok, violations: v };
+                }
+            }
             return Step { next: State { w, r, obs: s.obs.clone(), dead: false }, label: lbl, ok, violations: v };
         }
         let obs = match self.observe(&w) {
@@ -614,7 +640,7 @@ impl Model for StakeModel {
                 r.donated += amt.0;
                 pays_in = Some((DON, amt.0));
             }
-            Act::Advance | Act::AdvanceBy { .. } => unreachable!(),
+            Act::Advance | Act::AdvanceBy { .. } | Act::Jump { .. } => unreachable!(),
         }
         // ---- real token movement: exactly what the call is entitled to move
         if v.is_empty() {
